@@ -166,6 +166,12 @@ JudgeLabwareOp(tr, T, ev) ==
     Cl("C02.negative", ~NonNeg(P.vs), ev.out # "ok" /\ post.vol = vol),
     Cl("C05.mix", F.comp /\ cok /\ ev.cs /\ isAdd /\ valid /\ rout = "ok" /\ ev.out = "ok",
        \A i \in 1..Len(rvol) : rvol[i] > 0 => pc[k][i] = ra.comp[i]),
+    \* a rejected addition leaves volumes AND compositions of one and the same prefix of the per-well updates
+    Cl("C05.failmix", F.comp /\ cok /\ ev.cs /\ isAdd /\ valid /\ rout = "overflow" /\ ev.out = "overflow",
+       \E n \in 0..rn :
+          LET pr == AddRun(L, vol[k], TrackedComp(tr)[k], SubSeq(P.ws, 1, n), SubSeq(P.vs, 1, n), SubSeq(cs, 1, n), 1) IN
+          /\ post.vol[k] = pr.vol
+          /\ \A i \in 1..Len(pr.vol) : pr.vol[i] > 0 => pc[k][i] = pr.comp[i]),
     Cl("C05.removekeeps", F.comp /\ cok /\ ev.cs /\ ~isAdd,
        \A i \in 1..Len(post.vol[k]) : post.vol[k][i] > 0 => pc[k][i] = comp[k][i]),
     Cl("C11.count", live /\ ev.out = "ok", post.hn[k] = hn[k] + 1),
@@ -375,7 +381,8 @@ RArgsValid(T, a) ==
   /\ (IF a.vol.m >= 0 THEN (a.vol.m + 5) \div 10 ELSE a.vol.c) <= MaxRecordVolumeCents
   /\ (IF a.vol.m >= 0 THEN (a.vol.m + 5) \div 10 ELSE a.vol.c) <= T.wlmaxc
   /\ a.dir \in {"left_to_right", "right_to_left"}
-  /\ \A i \in 1..Len(a.excl) : a.excl[i] >= a.d1.v /\ a.excl[i] <= a.d2.v
+  /\ ~a.exclfrac                                     \* every excluded well is an integer ...
+  /\ \A i \in 1..Len(a.excl) : a.excl[i] >= a.d1.v /\ a.excl[i] <= a.d2.v   \* ... inside the destination range
 PosArg(n) == n.cls = "int" /\ n.v >= 1
 VolCents(v) == IF v.m >= 0 THEN (v.m + 5) \div 10 ELSE v.c
 VolArgValid(T, v) == v.cls = "num" /\ VolCents(v) >= 0 /\ VolCents(v) <= MaxRecordVolumeCents /\ VolCents(v) <= T.wlmaxc
